@@ -177,6 +177,25 @@ def _base_provides(base: type, key: str) -> bool:
     return any(key in vars(klass) for klass in base.__mro__)
 
 
+def _is_function_of_base_or_ancestor(
+    bases: List[type], contract_checker: Callable[..., Any]
+) -> bool:
+    """Check whether the ``contract_checker`` is the checker of a function of one of the bases or their ancestors."""
+    for base in bases:
+        for klass in base.__mro__:
+            for value in vars(klass).values():
+                if isinstance(value, (staticmethod, classmethod)):
+                    value = value.__func__
+
+                if not inspect.isfunction(value):
+                    continue
+
+                if icontract._checkers.find_checker(func=value) is contract_checker:
+                    return True
+
+    return False
+
+
 def _decorate_namespace_function(
     bases: List[type], namespace: MutableMapping[str, Any], key: str
 ) -> None:
@@ -198,6 +217,16 @@ def _decorate_namespace_function(
     postconditions = []  # type: List[Contract]
 
     contract_checker = icontract._checkers.find_checker(func=func)
+
+    if contract_checker is not None and _is_function_of_base_or_ancestor(
+        bases=bases, contract_checker=contract_checker
+    ):
+        # The function has not been defined in this class, but taken over from a base or an ancestor
+        # (*e.g.*, ``some_method = SomeBase.some_method`` to pick an implementation in a multiple inheritance).
+        # It is the very function of that class and keeps its contracts as they are; collapsing the contracts of
+        # the bases into it would change the contracts of that class.
+        return
+
     if contract_checker is not None:
         preconditions = contract_checker.__preconditions__  # type: ignore
         snapshots = contract_checker.__postcondition_snapshots__  # type: ignore
